@@ -12,7 +12,7 @@ RULE = ("one evaluation = one (frame list, partition of the concatenated stream)
         "frame (header or payload) / for outgoing: size class boundary; distinct by (frame sizes, content mode, cuts)")
 ASSUMPTIONS = ["frames are non-empty (the quantifier excludes empty frames)",
                "the layer is driven single-threaded, as the network thread does"]
-REQUIRED = ["recv_cases", "send_cases", "cuts_inside_header", "cuts_inside_payload", "oversize_refused", "reconnect_cases", "reconnect_ok", "reconnect_cut:header", "reconnect_cut:payload"]
+REQUIRED = ["recv_cases", "send_cases", "cuts_inside_header", "cuts_inside_payload", "oversize_refused", "reconnect_cases", "reconnect_ok", "reconnect_cut:header", "reconnect_cut:payload", "real_stream_cases", "real_stream_ok", "real_stream:socket", "real_stream:asyncore"]
 EXHAUSTIVE = None
 
 
@@ -184,6 +184,75 @@ def judge_reconnect(acc, r, case_id):
         acc.count("reconnect_ok")
 
 
+def real_stream_case(acc, seed, tag, dispatcher_name):
+    """The library's real dispatcher over loopback TCP: the server writes single large frames (around and above 64 KiB) and bursts
+    of many small ones; the bytes handed to the framing layer must be exactly the bytes the peer wrote (nothing lost, nothing
+    twice, connection not closed), and every stanza must come out at the top."""
+    from vf import env
+    env.shim_thirdparty()
+    from vf import realnet
+    from yowsup.layers.network import YowNetworkLayer
+    from yowsup.layers.auth import YowAuthenticationProtocolLayer
+    r = gen.rng(seed, ID, tag)
+    disp = YowNetworkLayer.DISPATCHER_SOCKET if dispatcher_name == "socket" else YowNetworkLayer.DISPATCHER_ASYNCORE
+    srv = realnet.LoopServer()
+    srv.start()
+    c = realnet.RealClient("c05real_%s" % tag.replace("/", "_"), srv.port, disp)
+    w = {"dir": "real-stream", "dispatcher": dispatcher_name, "tag": tag}
+    acc.count("real_stream_cases")
+    acc.count("real_stream:" + dispatcher_name)
+    acc.case(["real-stream", dispatcher_name, tag], nontrivial=True)
+    try:
+        c.start_loop()
+        c.connect_async()
+        if not c.wait(lambda: c.events(YowAuthenticationProtocolLayer.EVENT_AUTHED) >= 1, 15):
+            acc.inconc("%s: login over loopback did not complete" % tag)
+            return
+        conn = srv.conns[0]
+        plan = r.choice(["big", "burst", "mixed"])
+        w["plan"] = plan
+        sizes = []
+        if plan in ("big", "mixed"):
+            sizes += [r.choice([65000, 65500, 65536 - 40, 65536, 65537, 70000, 131072, 200000]) for _ in range(r.randint(1, 3))]
+        if plan in ("burst", "mixed"):
+            sizes += [r.randint(1, 60) for _ in range(r.choice([500, 2000, 4000]))]
+        r.shuffle(sizes) if plan == "mixed" else None
+        n = 0
+        for sz in sizes:
+            try:
+                conn.send_stanza(("ib", {"from": "s.whatsapp.net"}, [("dirty", {"type": "groups", "timestamp": str(1600000000 + n)}, [], gen.blob(r, 1) * sz)], None))
+            except OSError:
+                break           # the client closed the connection under the writer: judged below
+            n += 1
+        acc.count("real_stream_frames", n)
+        acc.maxi("real_stream_bytes", len(conn.sent_raw))
+
+        def got():
+            return b"".join(bytes(x) for x in list(c.probe_low.received))
+        ok_len = c.wait(lambda: sum(len(x) for x in list(c.probe_low.received)) >= len(conn.sent_raw) or c.events(YowNetworkLayer.EVENT_STATE_DISCONNECTED) >= 1, 30)
+        if c.events(YowNetworkLayer.EVENT_STATE_DISCONNECTED) >= 1:
+            acc.violation("real-stream:connection-closed:%s" % dispatcher_name, "while the peer was writing (%d frames, %d bytes) the client announced the connection as down; %d bytes had been handed up"
+                          % (n, len(conn.sent_raw), len(got())), w)
+            return
+        g, s_ = got(), bytes(conn.sent_raw)
+        if g != s_:
+            m = min(len(g), len(s_))
+            i = next((k for k in range(m) if g[k] != s_[k]), m)
+            acc.violation("real-stream:bytes-differ:%s" % dispatcher_name, "the bytes handed to the framing layer are not the bytes the peer wrote: %d vs %d bytes, first difference at %d%s"
+                          % (len(g), len(s_), i, "" if ok_len else " (after waiting 30 s)"), w)
+            return
+        acc.count("real_stream_ok")
+    finally:
+        try:
+            c.app.disconnect()
+        except Exception:
+            pass
+        c.stop_loop()
+        import time as _t
+        _t.sleep(0.05)
+        srv.stop()
+
+
 def exhaustive_family(acc, sizes, modes=(0, 1)):
     L = sum(3 + n for n in sizes)
     for mode in modes:
@@ -227,6 +296,8 @@ def shards(tier, seed, nworkers):
         specs.append({"kind": "random", "shard": i, "n": nrand // nsh, "big": i == 0})
     specs.append({"kind": "send", "n": 60 if tier == "quick" else 600})
     specs.append({"kind": "reconnect", "n": 600 if tier == "quick" else 40000})
+    for dname in ("socket", "asyncore"):
+        specs.append({"kind": "real-stream", "dispatcher": dname, "n": 4 if tier == "quick" else 60})
     return specs
 
 
@@ -281,6 +352,10 @@ def run(spec, acc):
             sizes, cuts = random_case(acc, r, "%d/%d" % (spec["shard"], i), big=big)
             if i < 3:
                 acc.sample({"frame_sizes": sizes[:10], "cuts": list(cuts[:20]), "n_cuts": len(cuts)})
+    elif spec["kind"] == "real-stream":
+        for i in range(spec["n"]):
+            real_stream_case(acc, seed, "rs/%s/%d" % (spec["dispatcher"], i), spec["dispatcher"])
+        acc.sample({"real_stream": "server writes large frames and bursts over loopback; bytes at the framing layer's input compared with the bytes written", "dispatcher": spec["dispatcher"]})
     elif spec["kind"] == "reconnect":
         for i in range(spec["n"]):
             judge_reconnect(acc, gen.rng(seed, ID, "reconnect/%d" % i), i)
